@@ -166,7 +166,12 @@ func (p *jsonPathParser) setNodeChain() {
 
 			nextNode := next.(syntaxNode)
 
-			if multiIdentifier, ok := last.(*syntaxChildMultiIdentifier); ok {
+			tailNode := last
+			for tailNode.getNext() != nil {
+				tailNode = tailNode.getNext()
+			}
+
+			if multiIdentifier, ok := tailNode.(*syntaxChildMultiIdentifier); ok {
 				for _, singleIdentifier := range multiIdentifier.identifiers {
 					singleIdentifier.setNext(nextNode)
 				}
